@@ -184,7 +184,8 @@ def special_names():
     tagged = [("LogAppendTimeMs", "int64", {"default": "-1", "ignorable": True}), ("LogAppendTimeMs", "int64", {"default": "-1"}),
               # (tagged + ignorable + no default on a ...Ms or ErrorCode field is left out: kio's documented convention makes
               # such a field Optional with default None, for which these types have no wire form to compare with)
-              ("ThrottleTimeMs", "int32", {"default": "0"}), ("ErrorCode", "int16", {"default": "0"}),
+              ("ThrottleTimeMs", "int32", {"default": "0"}), ("ErrorCode", "int16", {"default": "0"}), ("ErrorCode", "int16", {"ignorable": True}),
+              ("PartitionErrorCode", "int16", {"ignorable": True}),
               ("TopicName", "string", {"entityType": "topicName", "ignorable": True}), ("TopicName", "string", {"entityType": "topicName", "default": "t"}),
               ("BrokerId", "int32", {"entityType": "brokerId", "ignorable": True}), ("GroupId", "string", {"entityType": "groupId", "nullableVersions": "0+", "default": "null"}),
               ("ProducerId", "int64", {"entityType": "producerId", "default": "-1"})]
